@@ -175,9 +175,9 @@ def pixel_case(ctx, rng, k):
 def run(ctx):
     rng = ctx.rng
     drv = []
-    for k in range(ctx.n(150, 1200)):
+    for k in range(ctx.n(150, 6000)):
         tie_case(ctx, rng, k, drv)
-    for k in range(ctx.n(20, 96)):
+    for k in range(ctx.n(20, 400)):
         pixel_case(ctx, rng, k)
     ctx.sample({"pixel_max_inner_deg": ctx.extra.get("pixel_max_inner_deg"), "pixel_max_edge_deg": ctx.extra.get("pixel_max_edge_deg")})
     if not ctx.driver_ok:
